@@ -145,4 +145,25 @@ static unsigned int spec_geom_meta_first_group(const struct spec_geom *c, unsign
 {
 	return i << c->ldpb;
 }
+/*
+ * WHO CHARGES A GROUP'S BLOCK BITMAP, INODE BITMAP AND INODE TABLE AGAINST THE FREE-BLOCK COUNTS AT MKFS TIME.
+ * Format facts: bg_free_blocks_count of a group = blocks of the group that no metadata and no file uses.  The
+ * three tables of group g lie IN group g unless flexible block groups are in use, i.e. unless the FLEX_BG feature
+ * is set AND s_log_groups_per_flex != 0 (a flex group of 2^0 = 1 groups is no grouping: Documentation/filesystems/
+ * ext4 "Flexible Block Groups"; kernel ext4_fill_flex_info: "if (sbi->s_log_groups_per_flex < 1 ...) no flex").
+ * Two library functions cooperate when mke2fs builds the descriptors:
+ *   ext2fs_initialize            charges 2 + inode_blocks_per_group to every group up front (before the tables
+ *                                have a location) -- right exactly when the tables will lie in their own group;
+ *   ext2fs_allocate_group_table  charges each table block to the group it actually lands in, when it places it.
+ * Every table block must be charged EXACTLY ONCE, so both sides must decide by the SAME predicate.  This is that
+ * predicate; the contracts of BOTH units (geometry/initialize_group_accounting, geometry/allocate_group_table_*)
+ * are written with it and with nothing else, so a change of the decision on one side only fails an obligation.
+ * Macro form because loop invariants may not call functions.
+ */
+#define SPEC_TABLES_CHARGED_BY_INITIALIZE(flex_bg_feature, log_groups_per_flex) \
+	(!((flex_bg_feature) && (log_groups_per_flex) != 0))
+static int spec_tables_charged_by_initialize(int flex_bg_feature, unsigned int log_groups_per_flex)
+{
+	return SPEC_TABLES_CHARGED_BY_INITIALIZE(flex_bg_feature, log_groups_per_flex);
+}
 #endif
